@@ -81,6 +81,7 @@ class Typer:
         self.resolved = 0     # number of subscripts / matmuls / elementwise ops whose operands resolved
         self.checked = []     # the nodes of those operations
         self.half_space = {"S2": "K"}
+        self.slices = {}      # (lower text, upper text) -> Idx   e.g. ("nrb", None): Idx("N", "NR")
         self.attr_stores = []  # (dotted, type, node)
 
     def _res(self, node):
@@ -90,6 +91,9 @@ class Typer:
     # ------------------------------------------------------------ expressions
     def lookup(self, node):
         d = dotted(node)
+        if d is None and isinstance(node, ast.Subscript) and isinstance(node.slice, ast.Constant) \
+                and isinstance(node.slice.value, str) and dotted(node.value):
+            d = f'{dotted(node.value)}["{node.slice.value}"]'
         if d is None:
             return None
         if d in self.env:
@@ -112,7 +116,13 @@ class Typer:
                         return base
             return None
         if isinstance(node, ast.Subscript):
+            if isinstance(node.slice, ast.Constant) and isinstance(node.slice.value, str):
+                return self.lookup(node)
             return self.subscript(node)
+        if isinstance(node, ast.NamedExpr):
+            t = self.ty(node.value)
+            self.env[node.target.id] = t
+            return t
         if isinstance(node, ast.BinOp):
             return self.binop(node)
         if isinstance(node, ast.UnaryOp):
@@ -124,12 +134,19 @@ class Typer:
             return a if _same(a, b) else None
         if isinstance(node, ast.Constant):
             return SCALAR if isinstance(node.value, (int, float, complex)) else None
+        if isinstance(node, ast.Tuple) and len(node.elts) == 2:
+            i, j = self.ty(node.elts[0]), self.ty(node.elts[1])
+            if isinstance(i, Idx) and isinstance(j, Idx):
+                return Ix(i, j)
         return None
 
     def _index_elem(self, e):
         """type of one index element"""
         if isinstance(e, ast.Slice):
             lo, hi = e.lower, e.upper
+            key = (ast.unparse(lo) if lo is not None else None, ast.unparse(hi) if hi is not None else None)
+            if e.step is None and key in self.slices:
+                return self.slices[key]
             if e.step is None:
                 if lo is None and hi is not None and self._is_size(hi):
                     return Half("v")
@@ -373,6 +390,11 @@ class Typer:
                 vals = [self.ty(e) for e in st.value.elts]
             for i, t in enumerate(target.elts):
                 self.assign(t, vals[i] if vals else None, st)
+        elif isinstance(target, ast.Subscript) and isinstance(target.slice, ast.Constant) and isinstance(target.slice.value, str) \
+                and dotted(target.value):
+            d = f'{dotted(target.value)}["{target.slice.value}"]'
+            self.attr_stores.append((d, v, st))
+            self.env[d] = v
         elif isinstance(target, ast.Subscript):
             self.store(target, v, st)
 
@@ -404,4 +426,6 @@ def _same(a, b):
         return a.s == b.s and a.r == b.r
     if isinstance(a, Idx):
         return a.dom == b.dom and a.cod == b.cod
+    if isinstance(a, Ix):
+        return _same(a.i, b.i) and _same(a.j, b.j)
     return a == b
